@@ -89,6 +89,12 @@ class ConfigWorld(World):
             sched.append({"attr": a, "v": Y[a] if a in Y else None, "final": True})
         if cfg["to64"]:
             sched.insert(ro.randint(0, len(sched)), {"attr": "to64"})
+        rr = stream(seed, "refused")
+        if rr.random() < 0.3:
+            # an assignment the setter's own argument test refuses: the component keeps its configuration
+            cand = [a for a in attrs if a in ("dt", "B", "delay_k", "duration_k")]
+            if cand:
+                sched.insert(rr.randint(0, len(sched)), {"attr": "refused", "which": rr.choice(cand), "v": rr.choice([-1.0, 0.0]) })
         T = ro.randint(4, 14)
         cfg["sched"] = sched
         ops = [{"seed": ro.randrange(1 << 30), "p": ro.choice([0.3, 0.6, 0.9]), "query": ro.random() < 0.6} for _ in range(T)]
@@ -280,6 +286,34 @@ class ConfigWorld(World):
             sched.append({"attr": "to64"})      # components attached after the first .to() are converted by a final .to()
         for op in sched:
             before = self._getters(cfg, Bm)
+            if op["attr"] == "refused":
+                a, v = op["which"], op["v"]
+                if a == "B":
+                    v = int(v)
+                if (a == "delay_k" and (v == 0.0 or (kind in ("connection", "layer") and not cfg.get("delayed")))) or (a == "duration_k" and kind == "record" and v == 0.0):
+                    continue      # a legal value there
+                tgt = Bm.rec if kind == "record" else (Bm.connection if kind == "layer" and a != "duration_k" else Bm)
+                name = {"dt": "dt", "B": "batchsz", "delay_k": "delay", "duration_k": "duration"}[a]
+                if a == "delay_k" and kind in ("connection", "layer"):
+                    tgt = tgt.synapse
+                refused = False
+                try:
+                    setattr(tgt, name, v)
+                except (ValueError, TypeError, RuntimeError):
+                    refused = True
+                except Exception as e:      # noqa: BLE001
+                    ctx.fail("unexpected_exception", dict(facts, op="refused assignment", attr=a, exc=type(e).__name__), f"{name} = {v} raised {type(e).__name__}: {e}")
+                    return
+                if not refused:
+                    ctx.undecided += 1     # the value was accepted: nothing is promised about such a configuration
+                    return
+                ctx.fault("refused_assignment")
+                ctx.judged += 1
+                after = self._getters(cfg, Bm)
+                for k in before:
+                    if not _same(before[k], after[k]):
+                        ctx.fail("refused_side_effect", dict(facts, attr=a, getter=k), f"{name} = {v} was refused but the reported {k} changed: {before[k]} -> {after[k]}")
+                continue
             with ctx.impl("assignment", dict(facts, attr=op["attr"])) as reg:
                 exp = self._apply(cfg, Bm, op, cur)
             if reg.waived:
